@@ -602,6 +602,10 @@ def run(ctx):
                     "the extracted oracle ok_cues on every caption list with times in [0, 24 h) "
                     "(C02_*_model_meets_oracle); SAMI: C02_sami_write_ok",
                     "SAMI sync rule over all caption lists (C02_sami_sync_rule, rule stated in spec/)",
+                    "SAMI DOCUMENT over several languages: first language any shape, every language of a timeline set, any "
+                    "number of languages (C02_sami_first_language_rule, C02_sami_every_language_rule, "
+                    "C02_sami_document_meets_oracle)",
+                    "binary64 int(t*25.0/1e6) = exact floor for integer t < 24 h (C02_mdvd_frames_binary64)",
                     "SRT and legacy/single-position cues = maximal runs"],
         "definitional_or_partial": ["C02_mdvd_frames_floor_partial, C02_sami_start_integer_partial: model and spec are the "
                                     "same exact-rational floor; content = the decimal printer round trip; the binary64 "
@@ -610,11 +614,11 @@ def run(ctx):
                                     "C02_acc_ms_int, C02_acc_frames_int, C02_acc_ms_respects_equality: spec-internal",
                                     "C02_sami_float_start_refuted, C02_sami_blank_after_ms0_refuted: history (pre-fix "
                                     "variants of the model)"],
-        "correspondence_only": ["binary64 int(t*25.0/1e6) of MicroDVD and int(t // 1000) of SAMI",
+        "correspondence_only": ["binary64 arithmetic for FLOAT times; int(t // 1000) of SAMI",
                                 "token extraction through lxml / html.parser / block splitters",
                                 "that the real writers print the cues of the caption-list models (cue counts compared: "
                                 "a difference is a disagreement)", "writer options do not touch the times",
-                                "SAMI placement of syncs of further languages (bs4 find / insert)"]}
+                                "SAMI placement of syncs for sets that are not timelines (document model compared, request 206)"]}
     res["samples"] = [{"spans": [[repr(s), repr(e)] for (s, e) in cases[0][0][0]]}]
     return res
 
